@@ -104,9 +104,18 @@ CHECKS = [
         "asyncio task model (create_task/wait(timeout)/cancel/gather) assumed; API client, connection manager, status tracker, "
         "results sender are scripted collaborators; structural bound: two inverters per pool; floats as reals",
         "contract-based deductive verification with a task/exception-outcome model (z3)", "DESIGN.md 3 (C15)"),
+    chk("C10", "proof",
+        "Deductive proof of the restart policy (loop invariant over any sequence of outcomes of the run logic: re-invoked after an "
+        "Exception while the limit allows, never after return / cancellation / other BaseException), of start()'s idempotence, "
+        "cancel() and stop() - stop() under interference at its awaits (a task added meanwhile). One genuine defect is recorded as "
+        "a known finding (stop() returns while a task added during the wait is still running) with a native witness.",
+        "asyncio task model assumed; run logic is a scripted collaborator; interference bounded to one added task; run(*actors), wait() "
+        "alone, cancel_and_await not under contract",
+        "contract-based deductive verification with loop invariant, exception-outcome model and rely (interference) at awaits (z3)",
+        "DESIGN.md 3 (C10)"),
 ]
 
 _PENDING = "check under construction in this session (contracts not yet written); will be claimed once its obligations discharge"
 NOT_APPLICABLE = [
     {"property_id": "C12", "reason": "formula generators are graph algorithms over networkx.DiGraph (recursive dfs, successor-set classification); no contract within reach of the VC generator expresses 'the generated formula balances for every valid graph' (DESIGN.md 4)"},
-] + [{"property_id": f"C{n:02d}", "reason": _PENDING} for n in (1, 2, 5, 6, 9, 10, 19, 20)]
+] + [{"property_id": f"C{n:02d}", "reason": _PENDING} for n in (1, 2, 5, 6, 9, 19, 20)]
